@@ -42,6 +42,8 @@ type RunOpts struct {
 	// Modes lists the join-point switch (EVM.IsExecuteJP) of each consecutive top-level invocation on the same EVM
 	// (nil: one invocation with the scenario's JPOn).
 	Modes []bool
+	// Logger, if set, is attached as the EVM's debug tracer instead of the recording logger.
+	Logger avm.EVMLogger
 }
 
 type Run struct {
@@ -192,7 +194,11 @@ func Exec(s *Scn, o RunOpts) *Run {
 		t.FromAfter, t.ToAfter = new(big.Int).Set(db.GetBalance(from)), new(big.Int).Set(db.GetBalance(to))
 		r.Transfers = append(r.Transfers, t)
 	}
-	env := world.NewA(cs, world.AOpts{Tracer: rec, Host: host, Transfer: transfer, JPOff: false})
+	var logger avm.EVMLogger = rec
+	if o.Logger != nil {
+		logger = o.Logger
+	}
+	env := world.NewA(cs, world.AOpts{Tracer: logger, Host: host, Transfer: transfer, JPOff: false})
 	r.Env = env
 	rec.Refund = nil
 	modes := o.Modes
